@@ -167,6 +167,20 @@ class TlcResult:
         """Values printed with PrintT(<<tag, ...>>) -- raw lines containing the tag."""
         return [l for l in self.out.splitlines() if l.startswith('<<"%s"' % tag)]
 
+    def printed_json(self, tag):
+        """JSON payloads printed with PrintT(<<tag, ..., ToJson(x)>>): the last
+        string literal on each tagged line, parsed."""
+        out = []
+        for l in self.out.splitlines():
+            if not l.startswith('<<"%s"' % tag):
+                continue
+            i = l.find('"{')
+            j = l.rfind('}"')
+            if i < 0 or j < 0:
+                continue
+            out.append(json.loads(json.loads(l[i:j + 2])))
+        return out
+
     def coverage_zero(self):
         """Actions/ops reported by -coverage with zero count (module-level lines)."""
         zero = []
@@ -293,6 +307,10 @@ class Check:
             return False
         os.makedirs(REPLAYS, exist_ok=True)
         n = len(self.violations) + 1
+        if n > 25:
+            # enough replay files; keep counting
+            self.violations.append(self.violations[-1])
+            return True
         path = os.path.join(REPLAYS, "%s-%d-%d.json" % (self.pid, os.getpid(), n))
         replay = dict(replay)
         replay["property"] = self.pid
